@@ -33,7 +33,14 @@ impl RequestHandler<PrepareRenameRequest> for PrepareRenameRequestHandler {
             let source_column = params.position.character as usize;
 
             if let Some(source_file) = codegen.tree().files.get(file_path) {
+                // The position is supplied by the client and may not (or no longer) lie inside the document
+                if source_line >= source_file.file.num_lines() {
+                    return Ok(None);
+                }
                 let line = source_file.file.source_line(source_line);
+                if !line.is_char_boundary(source_column) {
+                    return Ok(None);
+                }
 
                 // Try to find the start of identifier under the cursor
                 let start = line[..source_column]
